@@ -383,3 +383,22 @@ Definition tcp_owner (valid : string -> bool) (visit : list (string * string)) (
   find (tcp_declares valid port) (isort alias_ltb visit).
 Definition tcp_name_old (valid : string -> bool) (visit : list (string * string)) (port : Z) : option (string * string) :=
   find (tcp_declares valid port) (rev visit).
+
+(* ================================================================== *)
+(* 5. Gateway API: sortHTTPRoutes / sortTCPRoutes (gateway.go)          *)
+(* ================================================================== *)
+(* the same key as sortIngress: creation stamp, then the text namespace ++ "/" ++ name.
+   gr_ing carries namespace, name and stamp of the route (its other fields are unused);
+   gr_claims = what the route asks for, as (claim, backend): claim = listener + hostname +
+   path + match of an HTTPRoute rule, or the listener port of a TCPRoute. *)
+Record groute := { gr_ing : ingress; gr_claims : list (string * string) }.
+Definition gr_full (r : groute) : string := i_full (gr_ing r).
+Definition groute_ltb (a b : groute) : bool := ing_ltb (gr_ing a) (gr_ing b).
+Definition sort_routes (l : list groute) : list groute := isort groute_ltb l.
+
+(* syncHTTPRoutes / syncTCPRoutes: routes in sorted order, a claim already taken is skipped
+   (redeclared path / port already assigned): first come, first served *)
+Definition claim_step (taken : list (string * string)) (c : string * string) : list (string * string) :=
+  match assoc (fst c) taken with Some _ => taken | None => taken ++ [c] end.
+Definition route_conversion (l : list groute) : list (string * string) :=
+  fold_left claim_step (flat_map gr_claims (sort_routes l)) [].
